@@ -44,6 +44,37 @@ CHECKS = {
         note=('Lattice weak duality is a necessary condition (catches duals that are too optimistic or have wrong signs); strong duality '
               'rests on the solver value check (LP 2e-6, SOC 2e-5, exp 5e-4, x10 margin). Exponential-cone duals are checked by value only. '
               'Bounded: 2 user columns, <=2 rows.')),
+    'C09': dict(
+        level='model_checking',
+        technique='TLC model checking of Lifecycle.tla (every interleaving within bounds) + replay of exported histories into rsome.ro against from-scratch builds of the declared sets',
+        design_ref='DESIGN.md 2.2, 5/C09, appendix E',
+        text=('Lifecycle.tla is implementation shaped: one shared support model whose six constraint lists are reset and re-filled by every '
+              'forall/minmax and snapshotted into the constraint, pupdate-guarded formula cache, solve/soc_solve, plus ghost state (the set the '
+              'user attached, declaration generation). TLC checks NoSetLeak, CacheCoherent, SolveUsesCurrent on every interleaving (folded by a '
+              'VIEW) and exports complete histories (all short ones; long ones by -simulate with a forced closing solve). Each history is executed '
+              'on a real model; after every solve each constraint must report the worst case of the set DECLARED for it, obtained from a fresh '
+              'single-constraint model in which nothing can leak (one item kind per support-model list, distinct radii so any leaked or lost item moves the value).'),
+        note=('Relational oracle (same library, fresh model), as the property is stated; C01 covers absolute correctness. Set definitions after st(), '
+              'dro ambiguity sets and late rvar/dvar declarations are not in the action alphabet yet. ECOS tolerance 2e-5 (5e-4 with p-norm/exp items).')),
+    'C17': dict(
+        level='model_checking',
+        technique='TLC action properties MisuseIsolated / Model2Isolated on Lifecycle.tla + replay of histories with cross-model misuse steps into two real models',
+        design_ref='DESIGN.md 2.2, 5/C17',
+        text=('Seven misuse actions (adding a foreign deterministic / robust constraint, foreign set in forall and minmax, foreign variable in an '
+              'expression, reading an unsolved model, non-scalar objective, second objective) and the actions of a second model are interleaved with '
+              'the normal life cycle of model 1. TLC checks that each misuse has outcome err and leaves both models unchanged; the replay requires '
+              'the real call to raise, the model to still solve to the values of its declaration afterwards, unformulable models (robust row without '
+              'set, no objective) to raise at formulation, and model 2 to keep its solo results.'),
+        note='ro/ro pairs only so far; dro-specific misuses (ambiguity() after constraints, scenario mismatch) are planned. Same bounds as C09.'),
+    'C19': dict(
+        level='model_checking',
+        technique='Lifecycle.tla histories replayed with byte-level observation of formulas, global RNG state and user arrays',
+        design_ref='DESIGN.md 2.2, 5/C19',
+        text=('On every step of every replayed Lifecycle history the harness observes: numpy global RNG state (hash) unchanged; user-supplied '
+              'coefficient arrays bytewise unchanged; do_math(primal/dual) twice without change returns numerically identical programs and does '
+              'not modify the program returned before; the cached standard form is bytewise identical before and after solve()/soc_solve(). '
+              'The histories (which call sequences, which repetitions) come from TLC; idempotence is the spec invariant CacheCoherent.'),
+        note='Two-process determinism (PYTHONHASHSEED variation) and exotic user dtypes/read-only arrays are not covered yet.'),
     'C13': dict(
         level='model_checking',
         technique='TLC model checking of Partition.tla + replay of every exported history into rsome.dro + TLC trace validation',
